@@ -104,7 +104,7 @@ Lemma write_index_good kd s q ex b :
   plan_ok kd (ptime q) (pview q) (pused q) ex (pasg q) (prw q) = true -> (forall p, In p ex -> Present s p) ->
   (forall e, In e (pnew q) -> In e (packs s) /\ ~ In (fst e) (view_pids (pview q))) ->
   (In b (kept_blobs q) \/ In b (blobs_of (pnew q))) ->
-  forall s' q', packs s' = packs s -> idxs s' = idxs s ++ [(nexti s, new_index q)] ->
+  forall s' q', packs s' = packs s -> idxs s' = idxs s ++ [(nexti s, new_index (restamp (clock s) q))] ->
     prw q' = prw q -> delete_list q' = delete_list q -> Good s' q' b.
 Proof.
   intros HPL (_ & _ & A3) (_ & IL2) Hq Hve Hpo Hex Hnew Hb s' q' Ep Ei Er Ed.
@@ -122,7 +122,7 @@ Proof.
       assert (Hbp : In b (snd pk)) by (apply (Wb pk Hpk E); exact Hb).
       pose proof (not_deleted_unm q (i, e) Hx) as Hnd. simpl in Hnd.
       destruct (memb i (prw q)) eqn:Mi.
-      * exists (nexti s, new_index q), e, pk. repeat split; auto.
+      * exists (nexti s, new_index (restamp (clock s) q)), e, pk. repeat split; auto.
         -- apply in_app_iff. right. left. reflexivity.
         -- simpl. apply in_app_iff. left. apply in_flat_map. exists (i, e). split; [exact Hx|]. simpl. rewrite Mi, St. left. reflexivity.
         -- rewrite E. exact Hnd.
@@ -133,15 +133,15 @@ Proof.
     + destruct (stays_listed (todo_of (pasg q) (fst (fst (snd x))))) eqn:St; [|destruct Hb].
       destruct (plan_ok_mk_stays _ _ _ _ _ _ _ x Hpo Hx St) as (Hrec & Hrw & Hin). apply Hex in Hin. unfold Present in Hin.
       apply in_map_iff in Hin. destruct Hin as (pk & E & Hpk).
-      pose proof (recover_relists_lemma q x Hx Hrec Hrw) as Hun.
+      pose proof (recover_relists_lemma (restamp (clock s) q) x Hx Hrec Hrw) as Hun.
       destruct x as [i m]. pose proof (dmk_In _ _ Hx) as [Hu _]. apply In_all_mk in Hu. destruct Hu as (f0 & Hf0 & He).
       destruct (Vw _ Hf0) as [_ U]. simpl in U. destruct (U m He) as [_ Wb]. simpl in *.
-      exists (nexti s, new_index q), (fst m), pk. repeat split; auto.
+      exists (nexti s, new_index (restamp (clock s) q)), (fst m), pk. repeat split; auto.
       * apply in_app_iff. right. left. reflexivity.
       * apply (Wb pk Hpk E). exact Hb.
       * rewrite E. apply not_deleted_recover. exact Hrec.
   - apply In_blobs_of in Hb. destruct Hb as (e & He & Hb). destruct (Hnew e He) as [Hpk Hnv].
-    exists (nexti s, new_index q), e, e. repeat split; auto.
+    exists (nexti s, new_index (restamp (clock s) q)), e, e. repeat split; auto.
     + apply in_app_iff. right. left. reflexivity.
     + simpl. apply in_app_iff. right. apply in_app_iff. right. exact He.
     + intro D. apply Hnv. apply view_pid_of_delete. exact D.
